@@ -67,13 +67,19 @@ def addSeg (t : Tree) : (k p : Nat) → Tree
   | k + 1, p => addSeg (t.push ⟨p, numOf t p + 1⟩) k t.size
 
 /-- greatest block number in the tree -/
-def maxNum (t : Tree) : Nat := t.foldl (fun m b => max m b.num) 0
+def maxNum (t : Tree) : Nat := t.toList.foldl (fun m b => max m b.num) 0
 
 /-- number of blocks with that number -/
-def countNum (t : Tree) (n : Nat) : Nat := t.foldl (fun c b => if b.num = n then c + 1 else c) 0
+def countNum (t : Tree) (n : Nat) : Nat :=
+  t.toList.foldl (fun c b => if b.num = n then c + 1 else c) 0
+
+/-- position (counted from `i`) of the first block with number `n` in `l`; 0 if there is none -/
+def firstIdx (n : Nat) : List Blk → Nat → Nat
+  | [], _ => 0
+  | b :: rest, i => if b.num = n then i else firstIdx n rest (i + 1)
 
 /-- id of the first block with number `n` (0 if none) -/
-def firstWithNum (t : Tree) (n : Nat) : Nat := (t.findIdx? (fun b => b.num = n)).getD 0
+def firstWithNum (t : Tree) (n : Nat) : Nat := firstIdx n t.toList 0
 
 /-- The best block of `blocktree.leaves.bestBlock()` when no block is a BABE primary block and
     exactly one leaf is deepest (the harness builds only such trees): the deepest block. -/
